@@ -3,6 +3,7 @@ import MazeVerif.Lemmas.TokVocabMem
 import MazeVerif.Lemmas.TokSpec
 import MazeVerif.Lemmas.TokSelNodup
 import MazeVerif.Lemmas.TokStrInj
+import MazeVerif.Lemmas.VocabLink
 /-! # C06 — modular tokenization is a faithful, decodable encoding of the maze
 
 Model: `MZ.Tok.toTokens` (Model/Tok*.lean; maze_tokenizer.py:729-1900, token_utils.py:34-68,120-158,385-451, utils.py:124-167),
@@ -301,6 +302,28 @@ theorem C06_vocab (cfg : TokCfg) (mz : MazeIn) (order : List OE) (toks : List To
         have h2 := (allOK_coordToks hmz.1).append (AllOK.cons (t := Tok.originEnd) trivial (AllOK.cons (t := Tok.targetStart) trivial h3))
         exact AllOK.cons trivial (hA.append (AllOK.cons trivial (AllOK.cons trivial h2)))
 
+/-- `C06_vocab` against the C14 model of `VOCAB_LIST` (`MZ.Vocab.vocab`: the list in its real order, whose positions are the token
+    ids). The generated list `MZ.Gen.vocab` used above has the same members (`gen_vocab_perm`, = `C14_vocab_models_agree`; it differs
+    only in the order inside the coordinate block), so under the same range conditions every emitted token is in `VOCAB_LIST` and
+    `encode` of the rendered sequence succeeds with one id per token, each id pointing back at the token. -/
+theorem C06_vocab_C14 (cfg : TokCfg) (mz : MazeIn) (order : List OE) (toks : List Tok) (h : toTokens cfg mz order = some toks)
+    (hord : ∀ e ∈ order, CoordOK cfg.ct e.1 ∧ CoordOK cfg.ct e.2)
+    (hmz : mz.CoordsOK cfg.ct) :
+    (∀ t ∈ toks, t.str ∈ MZ.Vocab.vocab) ∧
+    ∃ ids, MZ.Vocab.encode MZ.Vocab.vocab (toks.map Tok.str) = .ok ids ∧ ids.length = toks.length ∧
+      ∀ k (hk : k < toks.length), ∃ i, ids[k]? = some i ∧ MZ.Vocab.vocab[i]? = some (toks[k]).str := by
+  have hm : ∀ t ∈ toks, t.str ∈ MZ.Vocab.vocab :=
+    fun t ht => MZ.Vocab.gen_vocab_perm.mem_iff.1 (C06_vocab cfg mz order toks h hord hmz t ht)
+  refine ⟨hm, ?_⟩
+  obtain ⟨ids, he, hl, hk⟩ := MZ.Vocab.encode_ok (voc := MZ.Vocab.vocab) (ts := toks.map Tok.str) (by
+    intro s hs
+    obtain ⟨t, ht, rfl⟩ := List.mem_map.1 hs
+    exact hm t ht)
+  refine ⟨ids, he, by simpa using hl, ?_⟩
+  intro k hk'
+  obtain ⟨i, h1, h2⟩ := hk k (by simpa using hk')
+  exact ⟨i, h1, by simpa using h2⟩
+
 /-! ## the step-size and direction functions, characterised independently of the code's control flow -/
 
 /-- `StepSizes.Forks`: an index is a step boundary iff it is the first or last index of the solution, or the cell there has more than
@@ -413,6 +436,11 @@ example : (toTokens exCfg (.plain exMaze) exOrder).map List.length = some 42 ∧
     forkIdxs exMaze exSol = [0, 2, 3] := by decide
 example : exIn.CoordsOK exCfg.ct ∧ ∀ e ∈ exOrder, CoordOK exCfg.ct e.1 ∧ CoordOK exCfg.ct e.2 := by
   simp [MazeIn.CoordsOK, exIn, exCfg, exOrder, exSol, CoordOK, cttLo, cttHi]
+/-- `C06_vocab_C14` on the example: the rendered tokens are all in the C14 vocabulary (checked through the theorem, not by evaluating
+    4096 strings) -/
+example : ∀ toks, toTokens exCfg exIn exOrder = some toks → ∀ t ∈ toks, t.str ∈ MZ.Vocab.vocab := fun toks h =>
+  (C06_vocab_C14 exCfg exIn exOrder toks h
+    (by simp [exCfg, exOrder, CoordOK, cttLo, cttHi]) (by simp [MazeIn.CoordsOK, exIn, exCfg, exSol, CoordOK, cttLo, cttHi])).1
 example : parseCoord (.ctt false false false) (coordToks (.ctt false false false) (3, 4) ++ [Tok.endl]) = some ((3, 4), [Tok.endl]) := by decide
 example : isConn exMaze ((1, 1), (0, 1)) = true ∧ isConn exMaze ((1, 0), (1, 1)) = false := by decide
 example : LatAdj ((1, 1), (0, 1)) := by unfold LatAdj; decide
